@@ -146,7 +146,7 @@ fn with_ascent(text: &str) -> Option<String> {
     if done && !text.contains("recursive_ascent") && !text.contains("test_all") && !text.contains("table_driven") { Some(out) } else { None }
 }
 
-fn seed_texts(max: usize) -> Vec<(String, String)> {
+pub fn seed_texts(max: usize) -> Vec<(String, String)> {
     let mut v = vec![];
     fn walk(d: &Path, out: &mut Vec<std::path::PathBuf>) {
         if let Ok(rd) = std::fs::read_dir(d) {
